@@ -382,7 +382,8 @@ func C08(items []Item, auth bool, cfgUser *string, cfgPw []byte) (vs []V, checke
 						vs = append(vs, V{"C08", "wrong-credentials|auth=on", fmt.Sprintf("MQTT CONNECT carries user=%q(flag %v) password=%q(flag %v), the client's AUTH said %q / %q", c.User, c.HasUser, c.Password, c.HasPass, u, p), it.Seq})
 					}
 				} else {
-					wantU, wantP := cfgUser != nil, cfgPw != nil
+					// MQTT forbids a password without a user name: a password-only configuration sends neither
+				wantU, wantP := cfgUser != nil, cfgPw != nil && cfgUser != nil
 					ok := c.HasUser == wantU && c.HasPass == wantP
 					if ok && wantU && c.User != *cfgUser {
 						ok = false
@@ -453,6 +454,8 @@ func C09(items []Item, auth bool) (vs []V, checked int) {
 		goodAuth := false
 		wtReq, wmReq := 0, 0  // requests sent and not yet answered
 		var wt, wm *snref.Pkt // answers that were solicited
+		var wtItem, wmItem, authItem Item
+		nWillMsgReqAfterWT, nConnectAfterWM, nConnectAfterAuth := 0, 0, 0
 		nConnect := 0
 		brokerCodes := []byte{}
 		for _, it := range ex.Items {
@@ -461,19 +464,22 @@ func C09(items []Item, auth bool) (vs []V, checked int) {
 				switch it.SN.Type {
 				case snref.AUTH:
 					if it.SN.Name == "PLAIN" {
-						if _, _, ok := splitPlain(it.SN.Data); ok {
+						if _, _, ok := splitPlain(it.SN.Data); ok && !goodAuth {
 							goodAuth = true
+							authItem = it
 						}
 					}
 				case snref.WILLTOPIC:
 					if wtReq > 0 {
 						wtReq--
 						wt = it.SN
+						wtItem = it
 					}
 				case snref.WILLMSG:
 					if wmReq > 0 {
 						wmReq--
 						wm = it.SN
+						wmItem = it
 					}
 				}
 			case it.Kind == world.SNOut && it.SN != nil:
@@ -488,6 +494,9 @@ func C09(items []Item, auth bool) (vs []V, checked int) {
 					wtReq++
 				case snref.WILLMSGREQ:
 					checked++
+					if wt != nil {
+						nWillMsgReqAfterWT++
+					}
 					if !will {
 						vs = append(vs, V{"C09", "willmsgreq-without-will-flag", "WILLMSGREQ sent although the CONNECT had no Will flag", it.Seq})
 					} else if wt == nil {
@@ -515,6 +524,12 @@ func C09(items []Item, auth bool) (vs []V, checked int) {
 			case it.isMQ(world.MQOut, mqttref.CONNECT):
 				checked++
 				nConnect++
+				if wm != nil {
+					nConnectAfterWM++
+				}
+				if goodAuth {
+					nConnectAfterAuth++
+				}
 				c := it.MQ
 				if nConnect > 1 {
 					vs = append(vs, V{"C09", "second-mqtt-connect-in-exchange|" + pathTo(ex.asItems(), it.Seq), "more than one MQTT CONNECT for one connect exchange; client path: " + pathTo(ex.asItems(), it.Seq), it.Seq})
@@ -535,6 +550,32 @@ func C09(items []Item, auth bool) (vs []V, checked int) {
 				if !hasWill || c.WillTopic != wt.Name || !bytes.Equal(c.WillMsg, wm.Data) || wq != wt.QoS || wr != wt.Retain {
 					vs = append(vs, V{"C09", "will-fields-differ", fmt.Sprintf("MQTT CONNECT will (flag %v topic %q msg %q qos %d retain %v) differs from the client's WILLTOPIC %s / WILLMSG %q", hasWill, c.WillTopic, c.WillMsg, wq, wr, wt, wm.Data), it.Seq})
 				}
+			}
+		}
+		// progress: each step of a well-formed exchange is answered by the next one
+		healthy := ka != 0 && !precededByAwake(items, ex.Connect.Seq) && !doomed(items, ex.Connect)
+		if healthy && wt != nil && wt.Name != "" && wt.QoS <= 2 && !hasWildS(wt.Name) && !doomed(items, wtItem) {
+			checked++
+			if nWillMsgReqAfterWT == 0 {
+				vs = append(vs, V{"C09", fmt.Sprintf("no-willmsgreq|willqos=%d", wt.QoS), fmt.Sprintf("solicited %s was not answered with WILLMSGREQ", wt), wtItem.Seq})
+			}
+		}
+		if healthy && wm != nil && !doomed(items, wmItem) {
+			checked++
+			if nConnectAfterWM == 0 {
+				vs = append(vs, V{"C09", "no-mqtt-connect-after-willmsg", fmt.Sprintf("solicited WILLMSG (will topic %s) was not followed by an MQTT CONNECT", wt), wmItem.Seq})
+			}
+		}
+		if healthy && !will && auth && goodAuth && !doomed(items, authItem) {
+			checked++
+			if nConnectAfterAuth == 0 {
+				vs = append(vs, V{"C09", "no-mqtt-connect-after-auth", "CONNECT without Will and a well-formed AUTH were not followed by an MQTT CONNECT", authItem.Seq})
+			}
+		}
+		if healthy && !will && !auth {
+			checked++
+			if nConnect == 0 {
+				vs = append(vs, V{"C09", "no-mqtt-connect", "CONNECT without Will (authentication off) was not followed by an MQTT CONNECT", ex.Connect.Seq})
 			}
 		}
 		if will && !auth && ka != 0 && !precededByAwake(items, ex.Connect.Seq) && !doomed(items, ex.Connect) {
@@ -595,6 +636,8 @@ func doomed(items []Item, at Item) bool {
 	}
 	return false
 }
+
+func hasWildS(s string) bool { return strings.ContainsAny(s, "+#") }
 
 func min8(a, b byte) byte {
 	if a < b {
